@@ -1146,6 +1146,104 @@ pub fn run(w: &mut W) {
             j += 1;
         }
     }
+    // ---- 4d. announced-length independence: k short data flowsets / sets under a cached template
+    //      whose (last) field announces 64 bytes, and the same buffer under a template announcing
+    //      the maximum: the values are not there in either case, so what is requested must not
+    //      follow the announced length (beyond one bounded reservation)
+    for kind in 0..4usize {
+        if w.oneoff(j) {
+            let name = ["v9-data", "v9-options-data", "ipfix-data", "ipfix-options-data"][kind];
+            let _ = w.begin_case(crate::worker::ONEOFF + j, name);
+            let k = 256usize;
+            let v9hdr = |count: u16| {
+                let mut o = vec![];
+                p16(&mut o, 9);
+                p16(&mut o, count);
+                o.extend(vec![0u8; 16]);
+                o
+            };
+            let ixhdr = |len: usize| {
+                let mut o = vec![];
+                p16(&mut o, 10);
+                p16(&mut o, len as u16);
+                o.extend(vec![0u8; 12]);
+                o
+            };
+            let build = |len: u16| -> Vec<Vec<u8>> {
+                let mut t = vec![];
+                let mut d = vec![];
+                match kind {
+                    0 => {
+                        t.extend(v9hdr(1));
+                        t.extend_from_slice(&[0, 0, 0, 16, 1, 0, 0, 2, 0, 1, 0, 4]);
+                        p16(&mut t, 94);
+                        p16(&mut t, len);
+                        d.extend(v9hdr(k as u16));
+                        for _ in 0..k {
+                            d.extend_from_slice(&[1, 0, 0, 12, 0, 0, 0, 7, 1, 2, 3, 4]);
+                        }
+                    }
+                    1 => {
+                        t.extend(v9hdr(1));
+                        t.extend_from_slice(&[0, 1, 0, 20, 1, 0, 0, 4, 0, 4, 0, 1, 0, 4]);
+                        p16(&mut t, 82);
+                        p16(&mut t, len);
+                        t.extend_from_slice(&[0, 0]);
+                        d.extend(v9hdr(k as u16));
+                        for _ in 0..k {
+                            d.extend_from_slice(&[1, 0, 0, 12, 0, 0, 0, 7, 1, 2, 3, 4]);
+                        }
+                    }
+                    2 => {
+                        t.extend(ixhdr(16 + 16));
+                        t.extend_from_slice(&[0, 2, 0, 16, 1, 0, 0, 2, 0, 1, 0, 4]);
+                        p16(&mut t, 82);
+                        p16(&mut t, len);
+                        d.extend(ixhdr(16 + 12 * k));
+                        for _ in 0..k {
+                            d.extend_from_slice(&[1, 0, 0, 12, 0, 0, 0, 7, 1, 2, 3, 4]);
+                        }
+                    }
+                    _ => {
+                        t.extend(ixhdr(16 + 20));
+                        t.extend_from_slice(&[0, 3, 0, 20, 1, 0, 0, 2, 0, 1, 0, 1, 0, 4]);
+                        p16(&mut t, 82);
+                        p16(&mut t, len);
+                        t.extend_from_slice(&[0, 0]);
+                        d.extend(ixhdr(16 + 12 * k));
+                        for _ in 0..k {
+                            d.extend_from_slice(&[1, 0, 0, 12, 0, 0, 0, 7, 1, 2, 3, 4]);
+                        }
+                    }
+                }
+                vec![t, d]
+            };
+            let run = |bufs: &[Vec<u8>]| -> (CallCost, Sut) {
+                let mut sut = Sut::new(1);
+                let mut last = None;
+                for b in bufs {
+                    last = Some(measure(&mut sut, 0, b));
+                }
+                (last.unwrap(), sut)
+            };
+            let (c1, s1) = run(&build(64));
+            let (c2, s2) = run(&build(65534));
+            w.rep.count("announced_length_pairs", 1);
+            w.rep.count("calls_measured", 4);
+            let cached = |s: &Sut| { let p = &s.parsers[0]; p.v9_parser.templates.len() + p.v9_parser.options_templates.len() + p.ipfix_parser.templates.len() + p.ipfix_parser.options_templates.len() };
+            let a1 = c1.m.requested as f64;
+            let a2 = c2.m.requested as f64;
+            w.rep.max(&format!("announced_length.requested_extra.{}", name), (a2 - a1).max(0.0));
+            w.rep.shape(&format!("announced-length {}", name));
+            if cached(&s1) == 0 || cached(&s2) == 0 {
+                w.rep.inconclusive += 1; // the template was not accepted: nothing can be concluded
+            } else if a2 > a1 + 262144.0 {
+                let d = div(&format!("cost/announced-length/{}", name), "requested-follows-announced-length", format!("{} short {} sets under a template announcing 65534 bytes request {} bytes, {} under a template announcing 64 (the values are absent in both)", k, name, a2, a1));
+                w.rep.violation(format!("C15|cost/announced-length/{}|requested-follows-announced-length", name), &d, s2.replay_json());
+            }
+        }
+        j += 1;
+    }
     // ---- headers announcing huge counts over short bodies (single-request bound)
     let announce: Vec<(&str, Vec<u8>)> = {
         let mut v: Vec<(&str, Vec<u8>)> = vec![];
